@@ -142,7 +142,10 @@ def c04():
     p.add("h_ser::ser_utf8_predicate_exact", quick=False, timeout=900, bound="harness-side UTF-8 predicate = std::str::from_utf8 on all inputs of 0-4 bytes")
     p.add("h_ser::ser_constant_reject", quick=True, timeout=600,
           allow=["Cannot deserialize value: unrecognized value tag", "Problem reading boolfrom data stream"],
-          bound="constant tags 0x07-0xff and boolean bytes 2-255: rejected")
+          bound="constant tags 0x07-0xff (the bytes after the tag zero): rejected")
+    p.add("h_ser::ser_boolean_reject", quick=True, timeout=600,
+          allow=["Cannot deserialize value: unrecognized value tag", "Problem reading boolfrom data stream"],
+          bound="boolean payload bytes 2-255 (six further symbolic bytes): rejected")
     p.functions, p.bounds, p.outside, p.not_covered = SER_FUNCS, SER_BOUNDS, SER_OUTSIDE, SER_NOT_COVERED
     return p
 
@@ -406,7 +409,38 @@ def c11():
     return p
 
 
-REGISTRY = {"C07": c07, "C10": c10, "C11": c11, "C13": c13, "C14": c14, "C16": c16, "C02": c02, "C12": c12, "C15": c15, "C05": c05, "C03": c03, "C04": c04, "C08": c08, "C09": c09}
+def c17():
+    p = Prop("C17")
+    p.smt_tasks.append(SmtTask("c17_listing_mir", "c17_listing.py", quick=True, timeout=1500, args=["2", "3"], thorough_args=["4", "6"]))
+    p.functions = ["<Program as Display>::fmt, <ConstantPool as Display>::fmt, <Globals as Display>::fmt, <Entry as Display>::fmt, <Code as Display>::fmt",
+                   "<ProgramObject as Display>::fmt (7 variants, closure over class members), <OpCode as Display>::fmt (17 variants)",
+                   "<Address|ConstantPoolIndex|LocalFrameIndex|Arity|Size|AddressRange as Display>::fmt, Address::{from_usize,value_usize}",
+                   "all from the MIR of /repo's current sources; format_args! templates decoded as core::fmt::write decodes them"]
+    p.bounds = ["items: every instruction kind and every constant kind with every payload value; strings of any length and content without CR / LF; "
+                "classes of 0-3 members (quick) / 0-6 (thorough); method ranges with every start and length whose end fits an Address",
+                "programs: 0-2 (quick) / 0-4 (thorough) constants x globals x instructions, each constant / instruction ranging over the whole "
+                "language of its kind's renderings; every global and entry index",
+                "queries: D one way to split a rendering into tokens (exact per-token ambiguity query on regular languages), V tokens determine "
+                "the payload (bit-vector / string query over two copies of the value), X renderings of different kinds / shapes are disjoint "
+                "languages, I every element is listed once on a line starting with its index"]
+    p.outside = ["pools, global lists, code vectors and classes longer than the bound (the loops are uniform; not machine-checked beyond the bound)",
+                 "a method whose start + length - 1 overflows an Address: rendering panics (assert in Address::from_usize), nothing is printed",
+                 "string constants containing CR or LF (excluded by the property), characters above U+2FFFF (z3's character range)",
+                 "Entry(None): a loaded program always has an entry point",
+                 "the deserializer in front of the listing (C04 decides decoding) and the println! that writes the text"]
+    p.not_covered = ["bytecode::debug's alternative pretty-printer (pinned by the *_print tests; not what `fml disassemble` prints)"]
+    p.stubs = ["core's `{}` rendering of machine integers (canonical decimal, zero-padded to a width when the template says so), bool and str is "
+               "trusted, as are alloc's ToString and [String]::join; Formatter is modelled as a token list",
+               "the token model is validated on every run: for every rendering path two concrete values (large payloads; a string with quotes, "
+               "colon, hash, backslash) are printed by the real Display impls and compared with the model's prediction (model_validation)",
+               "MIR executor smt/mirx.py with the models it lists (iterators of concrete length, Option/Result combinators, closures)"]
+    p.assumptions = ["rustc's MIR is the program; z3's regular-expression and bit-vector procedures are sound",
+                     "composition (paper argument, DESIGN 5A): X gives the kind / shape, D the token strings, V the payload, so listing -> program is a function",
+                     "every claim is bounded by the shapes listed under coverage.bounds"]
+    return p
+
+
+REGISTRY = {"C07": c07, "C10": c10, "C11": c11, "C13": c13, "C14": c14, "C16": c16, "C02": c02, "C12": c12, "C15": c15, "C05": c05, "C03": c03, "C04": c04, "C08": c08, "C09": c09, "C17": c17}
 
 
 def get(pid):
